@@ -36,10 +36,18 @@ VARIABLES
     errst,    \* its error channel: none | err | nil | closed | used
     wspc,     \* WatchState caller: idle | cs | sel | done
     wswch, wsctx,
-    wsk       \* number of callback invocations so far
+    wsk,      \* number of callback invocations so far
+    wirv,     \* what WaitIdle returned ("" while it has not): nil | canceled | E1
+    wsrv      \* what WatchState returned ("" while it has not): nil | canceled | E1
+              \* (wirv, wsrv are never read by an action: they only make the results part of the state,
+              \*  so that a recorded return can be compared with them -- ConcQueueXTrace; the
+              \*  schedule graph uses VIEW xvars, which leaves them out; the model check has 10 more
+              \*  states in the quick set with them, NoRv is the view without)
 
 xvars == <<sc, running, queue, js, ppc, pip, wipc, wiwch, wictx, errst, wspc, wswch, wsctx, wsk>>
-vars == <<xvars, pvars>>
+rvars == <<wirv, wsrv>>
+vars == <<xvars, rvars, pvars>>
+NoRv == <<xvars, pvars>>
 
 S == Scens[sc]
 Limit == S.lim
@@ -57,6 +65,7 @@ Init ==
     /\ ppc = [p \in 1..MaxP |-> "idle"] /\ pip = [p \in 1..MaxP |-> 1]
     /\ wipc = "idle" /\ wiwch = "none" /\ wictx = FALSE /\ errst = "none"
     /\ wspc = "idle" /\ wswch = "none" /\ wsctx = FALSE /\ wsk = 0
+    /\ wirv = "" /\ wsrv = ""
 
 \* The start-or-push loop over the jobs handed over in one critical section (queue.go:47-56),
 \* from index i on, with counter r and queue q: result [r, q, st] (st: the jobs started).
@@ -79,7 +88,7 @@ Choose(k) ==
           /\ js' = [j \in Jobs |-> IF \E i \in 1..n : s.init[i] = j THEN "ready"
                                    ELSE IF \E i \in (n+1)..Len(s.init) : s.init[i] = j THEN "queued" ELSE "new"]
           /\ PNew(s.lim, s.init)
-    /\ UNCHANGED <<ppc, pip, wipc, wiwch, wictx, errst, wspc, wswch, wsctx, wsk>>
+    /\ UNCHANGED <<ppc, pip, wipc, wiwch, wictx, errst, wspc, wswch, wsctx, wsk, rvars>>
 
 Silent ==
     /\ sc # 0
@@ -99,7 +108,7 @@ Call(p) ==
     /\ Gate /\ p <= NP /\ ppc[p] = "idle" /\ pip[p] <= Len(Prods[p])
     /\ ppc' = [ppc EXCEPT ![p] = "cs"]
     /\ PCallEnq(Client(p), Batch(p))
-    /\ UNCHANGED <<sc, running, queue, js, pip, wipc, wiwch, wictx, errst, wspc, wswch, wsctx, wsk>>
+    /\ UNCHANGED <<sc, running, queue, js, pip, wipc, wiwch, wictx, errst, wspc, wswch, wsctx, wsk, rvars>>
 
 \* queue.go:46-61
 EnqCS(p) ==
@@ -114,7 +123,7 @@ EnqCS(p) ==
           /\ PRetEnq(Client(p), Len(res.q), res.r)
     /\ ppc' = [ppc EXCEPT ![p] = "idle"]
     /\ pip' = [pip EXCEPT ![p] = @ + 1]
-    /\ UNCHANGED <<sc, wipc, wictx, errst, wspc, wsctx, wsk>>
+    /\ UNCHANGED <<sc, wipc, wictx, errst, wspc, wsctx, wsk, rvars>>
 
 -----------------------------------------------------------------------------
 (* jobs and worker goroutines *)
@@ -123,13 +132,13 @@ Start(j) ==
     /\ Gate /\ js[j] = "ready"
     /\ js' = [js EXCEPT ![j] = "run"]
     /\ PEnter(j)
-    /\ UNCHANGED <<sc, running, queue, ppc, pip, wipc, wiwch, wictx, errst, wspc, wswch, wsctx, wsk>>
+    /\ UNCHANGED <<sc, running, queue, ppc, pip, wipc, wiwch, wictx, errst, wspc, wswch, wsctx, wsk, rvars>>
 
 Fin(j) ==
     /\ Gate /\ js[j] = "run"
     /\ js' = [js EXCEPT ![j] = "left"]
     /\ PLeave(j)
-    /\ UNCHANGED <<sc, running, queue, ppc, pip, wipc, wiwch, wictx, errst, wspc, wswch, wsctx, wsk>>
+    /\ UNCHANGED <<sc, running, queue, ppc, pip, wipc, wiwch, wictx, errst, wspc, wswch, wsctx, wsk, rvars>>
 
 \* queue.go:163-171: pop the next job, or retire and broadcast
 WorkerCS(j) ==
@@ -142,7 +151,7 @@ WorkerCS(j) ==
             /\ running' = running - 1
             /\ Broadcast
             /\ UNCHANGED queue
-    /\ UNCHANGED <<sc, ppc, pip, wipc, wictx, errst, wspc, wsctx, wsk, pvars>>
+    /\ UNCHANGED <<sc, ppc, pip, wipc, wictx, errst, wspc, wsctx, wsk, rvars, pvars>>
 
 -----------------------------------------------------------------------------
 (* WaitIdle *)
@@ -151,43 +160,43 @@ CallWI ==
     /\ Gate /\ S.wic.on /\ wipc = "idle"
     /\ wipc' = "cs"
     /\ PCallWI
-    /\ UNCHANGED <<sc, running, queue, js, ppc, pip, wiwch, wictx, errst, wspc, wswch, wsctx, wsk>>
+    /\ UNCHANGED <<sc, running, queue, js, ppc, pip, wiwch, wictx, errst, wspc, wswch, wsctx, wsk, rvars>>
 
 \* queue.go:73-81
 WICS ==
     /\ Gate /\ wipc = "cs"
     /\ IF running = 0 /\ queue = <<>>
-       THEN wipc' = "done" /\ PRetWI("nil") /\ UNCHANGED wiwch
-       ELSE wipc' = "sel" /\ wiwch' = "cur" /\ UNCHANGED pvars
-    /\ UNCHANGED <<sc, running, queue, js, ppc, pip, wictx, errst, wspc, wswch, wsctx, wsk>>
+       THEN wipc' = "done" /\ PRetWI("nil") /\ wirv' = "nil" /\ UNCHANGED wiwch
+       ELSE wipc' = "sel" /\ wiwch' = "cur" /\ UNCHANGED <<wirv, pvars>>
+    /\ UNCHANGED <<sc, running, queue, js, ppc, pip, wictx, errst, wspc, wswch, wsctx, wsk, wsrv>>
 
 WIWake ==
     /\ sc # 0 /\ wipc = "sel" /\ wiwch = "closed"
     /\ wipc' = "cs"
-    /\ UNCHANGED <<sc, running, queue, js, ppc, pip, wiwch, wictx, errst, wspc, wswch, wsctx, wsk, pvars>>
+    /\ UNCHANGED <<sc, running, queue, js, ppc, pip, wiwch, wictx, errst, wspc, wswch, wsctx, wsk, rvars, pvars>>
 
 WIWakeCtx ==
     /\ sc # 0 /\ wipc = "sel" /\ wictx
-    /\ wipc' = "done" /\ PRetWI("canceled")
-    /\ UNCHANGED <<sc, running, queue, js, ppc, pip, wiwch, wictx, errst, wspc, wswch, wsctx, wsk>>
+    /\ wipc' = "done" /\ PRetWI("canceled") /\ wirv' = "canceled"
+    /\ UNCHANGED <<sc, running, queue, js, ppc, pip, wiwch, wictx, errst, wspc, wswch, wsctx, wsk, wsrv>>
 
 \* queue.go:85-94: a received nil error is ignored (loop again), a closed channel counts as cancellation
 WIWakeErr ==
     /\ sc # 0 /\ wipc = "sel" /\ errst \in {"err", "nil", "closed"}
-    /\ CASE errst = "err"    -> wipc' = "done" /\ errst' = "used" /\ PRetWI("E1")
-         [] errst = "nil"    -> wipc' = "cs" /\ errst' = "used" /\ UNCHANGED pvars
-         [] errst = "closed" -> wipc' = "done" /\ UNCHANGED errst /\ PRetWI("canceled")
-    /\ UNCHANGED <<sc, running, queue, js, ppc, pip, wiwch, wictx, wspc, wswch, wsctx, wsk>>
+    /\ CASE errst = "err"    -> wipc' = "done" /\ errst' = "used" /\ PRetWI("E1") /\ wirv' = "E1"
+         [] errst = "nil"    -> wipc' = "cs" /\ errst' = "used" /\ UNCHANGED <<wirv, pvars>>
+         [] errst = "closed" -> wipc' = "done" /\ UNCHANGED errst /\ PRetWI("canceled") /\ wirv' = "canceled"
+    /\ UNCHANGED <<sc, running, queue, js, ppc, pip, wiwch, wictx, wspc, wswch, wsctx, wsk, wsrv>>
 
 CancelWI ==
     /\ Gate /\ S.wic.on /\ S.wic.cancel /\ wipc \in {"cs", "sel"} /\ ~wictx
     /\ wictx' = TRUE
-    /\ UNCHANGED <<sc, running, queue, js, ppc, pip, wipc, wiwch, errst, wspc, wswch, wsctx, wsk, pvars>>
+    /\ UNCHANGED <<sc, running, queue, js, ppc, pip, wipc, wiwch, errst, wspc, wswch, wsctx, wsk, rvars, pvars>>
 
 FireErr ==
     /\ Gate /\ S.wic.on /\ S.wic.errch # "none" /\ wipc \in {"cs", "sel"} /\ errst = "none"
     /\ errst' = (IF S.wic.errch = "close" THEN "closed" ELSE S.wic.errch)
-    /\ UNCHANGED <<sc, running, queue, js, ppc, pip, wipc, wiwch, wictx, wspc, wswch, wsctx, wsk, pvars>>
+    /\ UNCHANGED <<sc, running, queue, js, ppc, pip, wipc, wiwch, wictx, wspc, wswch, wsctx, wsk, rvars, pvars>>
 
 -----------------------------------------------------------------------------
 (* WatchState *)
@@ -195,7 +204,7 @@ FireErr ==
 CallWS ==
     /\ Gate /\ S.wsc.on /\ wspc = "idle"
     /\ wspc' = "cs"
-    /\ UNCHANGED <<sc, running, queue, js, ppc, pip, wipc, wiwch, wictx, errst, wswch, wsctx, wsk, pvars>>
+    /\ UNCHANGED <<sc, running, queue, js, ppc, pip, wipc, wiwch, wictx, errst, wswch, wsctx, wsk, rvars, pvars>>
 
 Answer == IF wsk + 1 <= Len(S.wsc.script) THEN S.wsc.script[wsk + 1] ELSE "false"
 
@@ -205,23 +214,24 @@ WSCS ==
     /\ wswch' = "cur"
     /\ wsk' = wsk + 1
     /\ PWatch(Len(queue), running)
-    /\ wspc' = IF Answer = "true" THEN "sel" ELSE "done"
-    /\ UNCHANGED <<sc, running, queue, js, ppc, pip, wipc, wiwch, wictx, errst, wsctx>>
+    /\ wspc' = (IF Answer = "true" THEN "sel" ELSE "done")
+    /\ wsrv' = (IF Answer = "true" THEN wsrv ELSE IF Answer = "err" THEN "E1" ELSE "nil")   \* queue.go:125-128: return err
+    /\ UNCHANGED <<sc, running, queue, js, ppc, pip, wipc, wiwch, wictx, errst, wsctx, wirv>>
 
 WSWake ==
     /\ sc # 0 /\ wspc = "sel" /\ wswch = "closed"
     /\ wspc' = "cs"
-    /\ UNCHANGED <<sc, running, queue, js, ppc, pip, wipc, wiwch, wictx, errst, wswch, wsctx, wsk, pvars>>
+    /\ UNCHANGED <<sc, running, queue, js, ppc, pip, wipc, wiwch, wictx, errst, wswch, wsctx, wsk, rvars, pvars>>
 
 WSWakeCtx ==
     /\ sc # 0 /\ wspc = "sel" /\ wsctx
-    /\ wspc' = "done"
-    /\ UNCHANGED <<sc, running, queue, js, ppc, pip, wipc, wiwch, wictx, errst, wswch, wsctx, wsk, pvars>>
+    /\ wspc' = "done" /\ wsrv' = "canceled"
+    /\ UNCHANGED <<sc, running, queue, js, ppc, pip, wipc, wiwch, wictx, errst, wswch, wsctx, wsk, wirv, pvars>>
 
 CancelWS ==
     /\ Gate /\ S.wsc.on /\ S.wsc.cancel /\ wspc \in {"cs", "sel"} /\ ~wsctx
     /\ wsctx' = TRUE
-    /\ UNCHANGED <<sc, running, queue, js, ppc, pip, wipc, wiwch, wictx, errst, wspc, wswch, wsk, pvars>>
+    /\ UNCHANGED <<sc, running, queue, js, ppc, pip, wipc, wiwch, wictx, errst, wspc, wswch, wsk, rvars, pvars>>
 
 -----------------------------------------------------------------------------
 Next ==
